@@ -165,6 +165,7 @@ Section Zlib.
 
   Theorem C06_roundtrip : forall lvl lb d out maxsz,
     bytes d -> 9 + len (deflate lvl d) < M64 / 4 -> len d < M64 / 2 ->
+    len d / 1032 <= 9 + len (deflate lvl d) ->      (* deflate expands at most 1032:1 (format fact, assumed of zlib): the guard of 5c6a588 *)
     0 < o_esz out -> (len d) mod (o_esz out) = 0 ->
     (maxsz <= 0 \/ len d <= maxsz) ->
     (o_owner out = false -> len d <= o_cnt out * o_esz out < M64) ->
